@@ -1049,6 +1049,18 @@ VARIANTS += [
     Variant("layout-min-spacing-only-between-populated", LAYOUT, [
         ("                subtree_spacing = max(\n                    trunk_width - (left_trunk_dist + right_trunk_dist),\n                    params.min_subtree_spacing,\n                )", "                subtree_spacing = trunk_width - (left_trunk_dist + right_trunk_dist)\n\n                if left_info[\"branches\"] and right_info[\"branches\"]:\n                    subtree_spacing = max(subtree_spacing, params.min_subtree_spacing)"),
     ], ("SUBTREE-BOX", "SIGMA-INVARIANCE")),
+    # ---- tenth round
+    M("table-entry-drops-retention", DP, "        return Entry(\n            value,\n            infos,\n            self.merge_policy,\n            self.retention_policy,\n        )", "        return Entry(\n            value,\n            infos,\n            self.merge_policy,\n        )", "TABLE-ENTRY-POLICIES"),
+    M("rmq-copy-of-data", "utils/range_min_query.py", "list(data)", "data.copy()", "PROTOCOL-ONLY"),
+    M("supertree-shape-shortcut", TREES, "    return tree_from_triples(*trees_to_triples(trees))", "    trees = list(trees)\n\n    if len({tree.write(format=9) for tree in trees}) > 1 and len({frozenset(tree.get_leaf_names()) for tree in trees}) == 1:\n        return None\n\n    return tree_from_triples(*trees_to_triples(trees))", "SUPERTREE-DELEGATES"),
+    T("twin-supertree-materialised", TREES, "    return tree_from_triples(*trees_to_triples(trees))", "    trees = list(trees)\n    return tree_from_triples(*trees_to_triples(trees))"),
+    M("format-synteny-commas-after-wrap", SYN, "    result = \", \".join(sort_synteny(synteny) if isinstance(synteny, set) else synteny)\n\n    if width is not None:\n        result = balanced_wrap(result, width)\n\n    return result", "    families = sort_synteny(synteny) if isinstance(synteny, set) else synteny\n\n    if width is None:\n        return \", \".join(families)\n\n    lines = balanced_wrap(\" \".join(families), width).split(\"\\n\")\n    return \",\\n\".join(\", \".join(line.split(\" \")) for line in lines)", "WRAP-FINAL-TEXT"),
+    M("costrec-speciation-reread-as-duplication", MODEL, "        if event == NodeEvent.SPECIATION:\n            return (\n                costs[NodeEvent.SPECIATION]", "        if event == NodeEvent.SPECIATION and costs[NodeEvent.DUPLICATION] < costs[NodeEvent.SPECIATION]:\n            event = NodeEvent.DUPLICATION\n\n        if event == NodeEvent.SPECIATION:\n            return (\n                costs[NodeEvent.SPECIATION]", "EVAL-NO-SHORTCUT"),
+    Variant("thl-results-filtered", REC, [
+        ("                _decode_thl_table(root_object, root_species, rec_input, table),\n            )\n        )\n\n    return results.infos()", "                filter(lambda output: len(output.object_species) > 2, _decode_thl_table(root_object, root_species, rec_input, table)),\n            )\n        )\n\n    return results.infos()"),
+    ], ("RESULT-SCOPE",)),
+    M("layout-state-registered-late", LAYOUT, "        layout_state[root_species] = state\n\n        for root_gene in gene_tree.traverse(\"postorder\"):", "        for root_gene in gene_tree.traverse(\"postorder\"):", "PLACED-IN-SPECIES", note="registration dropped altogether"),
+    M("segdist-complete-parent-fast-path", SUBS, "    for _ in range(parent.bit_length()):\n        bit_child = child & 1", "    if parent == (1 << parent.bit_length()) - 1 and child == parent:\n        return 0\n\n    for _ in range(parent.bit_length()):\n        bit_child = child & 1", "SEGMENT-MACHINE"),
     M("update-returns-in-loop", DP, "                self._value = value\n\n    update.__doc__", "                self._value = value\n                return\n\n    update.__doc__", "UPDATE-ALL-CANDIDATES"),
 ]
 
@@ -1059,7 +1071,7 @@ CANARY_RULES = (
     "COPY-BEFORE-MUTATE", "FRESH-ATTACH", "FRESH-STARTS", "ESCAPE-TAINT", "PREORDER-STATE", "TABLE-FRESH-CELLS",
     "NONE-SENTINEL-TRUTH", "OPTIONAL-CHECKED", "NO-TOPOLOGY-WRITE", "ELEMENT-UPDATE", "RESULT-UNCONDITIONAL",
     "FIELD-SOURCE", "SORT-KEY-ALIGNED", "ENTRY-OWNS-TAGS",
-    "UNPACK-SPLIT", "PARAM-NOT-REWRITTEN", "VARARGS-AS-GIVEN", "KINDS-COMPLETE", "TREE-AS-GIVEN", "BRANCH-COMPLETE-ASSIGN", "TRIPLES-RECURSION", "JSON-INFINITE-COSTS", "LABEL-LINEBREAKS", "LOSS-COLOR-OWN",
+    "TABLE-ENTRY-POLICIES", "PROTOCOL-ONLY", "SUPERTREE-DELEGATES", "WRAP-FINAL-TEXT", "UNPACK-SPLIT", "PARAM-NOT-REWRITTEN", "VARARGS-AS-GIVEN", "KINDS-COMPLETE", "TREE-AS-GIVEN", "BRANCH-COMPLETE-ASSIGN", "TRIPLES-RECURSION", "JSON-INFINITE-COSTS", "LABEL-LINEBREAKS", "LOSS-COLOR-OWN",
     "PARSE-READONLY", "GEOM-NO-ORDER", "GRAPH-AS-GIVEN", "EVAL-NO-SHORTCUT", "CLOSURE-LATE-BINDING", "REFINEMENT-PAIRING", "KIND-ENUM-BASE", "TAG-TEST-CONSISTENT", "ROOT-CONTENT",
     "KEY-GUARD", "HASH-IDENTITY", "COST-GUARD", "COPY-FAITHFUL", "NAME-AS-KEY", "ENUM-NO-TRUNCATION", "SET-ALGEBRA-ARGS",
     "LEAF-MAP-DOMAIN", "WIDTH-VERBATIM", "TOPO-VERDICT", "ROOT-ORDER-SOURCE",
